@@ -133,7 +133,7 @@ def _step(draw):
         return {"kind": "raise", "which": draw(st.sampled_from(("dims_add", "dims_dot", "cross4", "boost2d", "bad_obj", "bad_names", "bad_array",
                                                                  "two_kw", "bad_order", "div0", "eq_dims", "like_bad", "sum_bad_axis", "sum_bad_axis",
                                                                  "aksum_bad_axis", "sum_where", "getitem_bad", "count_bad_axis"))), "h": draw(st.integers(0, 2**30))}
-    return {"kind": "construct", "which": draw(st.sampled_from(("obj", "array", "zip", "Array", "zip_mom", "Array_behavior", "zip_behavior"))), "h": draw(st.integers(0, 2**30)),
+    return {"kind": "construct", "which": draw(st.sampled_from(("obj", "array", "zip", "Array", "zip_mom", "Array_behavior", "zip_behavior", "np_getitem", "np_setitem"))), "h": draw(st.integers(0, 2**30)),
             "v": draw(gen.vec(("moderate",)))}
 
 
@@ -174,9 +174,32 @@ def gsnap():
         "vector.behavior": (id(vector.backends.awkward.behavior), len(vector.backends.awkward.behavior),
                             zlib.crc32(repr(sorted(repr(k) for k in vector.backends.awkward.behavior)).encode())),
         "vector._awkward_registered": getattr(vector, "_awkward_registered", None),
+        "vector.module_tables": _module_tables(),
         "switchinterval": sys.getswitchinterval(),
         "warnings.showwarning": id(warnings.showwarning),
     }
+
+
+def _module_tables():
+    """every module-level dict / list / set of the library (alias tables, coordinate orders, priorities, registries): size and,
+    for the small ones, content"""
+    import vector._methods
+    import vector.backends.awkward_constructors
+
+    out = []
+    for mod in (vector, vector._methods, vector.backends.object, vector.backends.numpy, vector.backends.awkward,
+                vector.backends.awkward_constructors):
+        for name, val in sorted(vars(mod).items()):
+            if name.startswith("__") or not isinstance(val, (dict, list, set, tuple)):
+                continue
+            if isinstance(val, tuple) and len(val) > 64:
+                continue
+            try:
+                content = zlib.crc32(repr(sorted(map(repr, val))).encode()) if len(val) <= 200 else None
+            except Exception:  # noqa: BLE001
+                content = None
+            out.append((mod.__name__, name, len(val), content))
+    return tuple(out)
 
 
 def gdiff(a, b):
@@ -320,6 +343,19 @@ def run_step(step, registered=False):
                 r = vector.zip({"x": [[c[0]], [], [1.0, 2.0]], "y": [[c[1]], [], [3.0, 4.0]]})
             elif w == "Array":
                 r = vector.Array([{"rho": abs(c[0]), "phi": 0.3, "eta": 0.1, "tau": 1.0}])
+            elif w in ("np_getitem", "np_setitem"):
+                m_ = vector.array({"pt": [abs(c[0]), 1.0], "phi": [0.1, 0.2], "eta": [0.3, -0.3], "mass": [0.1, 0.2]})
+                if w == "np_getitem":
+                    r = tuple(float(m_[nm][0]) for nm in ("phi", "pt", "rho", "eta", "mass", "tau", "M"))
+                else:
+                    m_["phi"] = [0.5, 0.6]
+                    m_["pt"] = [2.0, 3.0]
+                    m_[0:1] = numpy.array([(1.0, 0.5, 0.25, 2.0)], dtype=[("pt", float), ("phi", float), ("eta", float), ("mass", float)])
+                    r = m_
+                g_ = vector.array({"rho": [1.0], "phi": [0.5]})
+                if type(g_).__name__ != "VectorNumpy2D":
+                    return ("ok", "generic constructor returned " + type(g_).__name__)
+                return ("ok", c14._bits(r) if w == "np_setitem" else r)
             elif w in ("Array_behavior", "zip_behavior"):
                 # an input that carries its own (foreign) behavior entries: they belong to that array, not to the library
                 foreign = {("__verif__", f"k{h % 3}"): _errcall, "*": ak.behavior.get("*", None) or _Log}
